@@ -174,6 +174,12 @@ def run_property(prop, tier, seed, keep=False):
                 confirmed = None
                 tried = []
                 unknown_descs = set(it[0] for it in unknown)
+                fallback = False
+                if not tests and not h["should_panic"]:
+                    # CBMC could not produce a trace (e.g. out of memory while generating it): the native twin still runs its fixed
+                    # non-degenerate variants on an all-zero stream; only a native failure of one of the SAME checks counts
+                    tests = [("no playback vector from CBMC: native twin on an all-zero byte stream (fixed variants of the twin)", bytes(4096))]
+                    fallback = True
                 for (what, data) in tests:
                     for profile in ("dev", "release"):
                         verdict, msg = kanirun.native_replay(base, h["name"], data, feats, profile)
@@ -184,7 +190,7 @@ def run_property(prop, tier, seed, keep=False):
                                 ok = False
                             else:
                                 # the native panic must not be (only) a listed finding
-                                ok = (msg in unknown_descs) or not is_known(known, prop, h["name"], msg)
+                                ok = (msg in unknown_descs) or (not fallback and not is_known(known, prop, h["name"], msg))
                         elif verdict == "returned":
                             ok = h["should_panic"] and any(it[1] in ("mustnot", "nopanic") for it in unknown)
                         if ok and confirmed is None:
@@ -223,7 +229,8 @@ def run_property(prop, tier, seed, keep=False):
             knownhits += ex.get("known", [])
     finally:
         if not keep:
-            overlay.remove_scratch(base)
+            if not os.environ.get("VERIF_KEEP"):
+                overlay.remove_scratch(base)
     wall = time.time() - t0
     for (hn, desc, text) in knownhits:
         print("KNOWN-FINDING: property=%s harness=%s check=\"%s\" %s" % (prop, hn, desc, text))
@@ -277,7 +284,8 @@ def do_replay(prop, path):
             print("VIOLATION property=%s replay=%s" % (prop, path))
         return rc
     finally:
-        overlay.remove_scratch(base)
+        if not os.environ.get("VERIF_KEEP"):
+            overlay.remove_scratch(base)
 
 
 def main():
